@@ -44,7 +44,9 @@ InitActor == [st |-> Unstarted, sig |-> "none", stp |-> "none", stpReason |-> ""
               seenPre |-> FALSE, seenPost |-> FALSE, seenPStop |-> FALSE, badOrder |-> FALSE,
               cbAfterKill |-> FALSE, hAfterStop |-> FALSE, nTerm |-> 0, nStarted |-> 0, badEvt |-> FALSE,
               \* monitors of this actor; monitors that were already sent a terminal event about it
-              mons |-> {}, monTerm |-> {}, dupMon |-> FALSE]
+              mons |-> {}, monTerm |-> {}, dupMon |-> FALSE,
+              \* member of the scenario's process group (joined from a callback; left by the exit cleanup)
+              inPg |-> FALSE]
 
 Init == /\ ac = [a \in Actors |-> InitActor]
         /\ nsent = [a \in Actors |-> 0] /\ ninj = [a \in Actors |-> 0]
@@ -207,6 +209,13 @@ Yield(a) ==
 Resume(a) ==
   /\ ac[a].cb.susp /\ NoSig(a) /\ Ready(a)
   /\ Step(a, [ac[a] EXCEPT !.cb.susp = FALSE])
+\* registry / process-group view of an actor (C08, C10, C11 facets visible at this level): the name and
+\* the memberships go away when the status first reaches Stopping (ActorCell::set_status cleanup)
+Registered(a) == ac[a].pc # "none" /\ ac[a].st < Stopping
+InGroup(a) == ac[a].inPg /\ ac[a].st < Stopping
+JoinPg(a) ==
+  /\ ac[a].cb.k # "none" /\ ~ac[a].cb.susp
+  /\ Step(a, [ac[a] EXCEPT !.inPg = @ \/ ac[a].st < Stopping])
 \* actions a callback may perform on its own actor
 SelfKill(a) == "selfkill" \in EnvOps[a] /\ ac[a].cb.k # "none" /\ ~ac[a].cb.susp /\ Kill(a)
 SelfStop(a) == "selfstop" \in EnvOps[a] /\ ac[a].cb.k # "none" /\ ~ac[a].cb.susp /\ Stop(a, "self")
@@ -297,7 +306,7 @@ AbortDrop(a) ==
 
 ActorStep(a) ==
   \/ SpawnCall(a) \/ LocalStart(a) \/ LocalStartRefused(a) \/ StartBegin(a) \/ StartRefused(a) \/ Yield(a) \/ Resume(a) \/ SelfKill(a) \/ SelfStop(a)
-  \/ SigHandled(a) \/ PostStartBegin(a) \/ ListenStop(a) \/ TakeSup(a) \/ TakeMsg(a) \/ TakeDrain(a)
+  \/ JoinPg(a) \/ SigHandled(a) \/ PostStartBegin(a) \/ ListenStop(a) \/ TakeSup(a) \/ TakeMsg(a) \/ TakeDrain(a)
   \/ EnterSup(a) \/ EnterMsg(a) \/ DropUndecodable(a) \/ PostStopBegin(a) \/ AbortDrop(a) \/ Cleanup(a)
   \/ \E o \in Outcomes : PreEnd(a, o) \/ PostStartEnd(a, o) \/ HandlerEnd(a, o) \/ PostStopEnd(a, o)
 EnvStep(a) == \/ Send(a) \/ Inject(a) \/ EnvKill(a) \/ EnvStop(a) \/ EnvDrain(a) \/ EnvAbort(a)
@@ -332,5 +341,6 @@ DeadMeansClean == \A a \in Actors : ac[a].pc = "dead" =>
   /\ ac[a].st = Stopped /\ ~ac[a].rxOpen /\ ac[a].mq = <<>> /\ ac[a].supq = <<>> /\ ac[a].par = NoA /\ Kids(a) = {}
 FailedStartSilent == \A a \in Actors : (ac[a].pc = "dead" /\ ac[a].spawnRes # "ok") =>
   (ac[a].nTerm = 0 /\ ac[a].nStarted = 0 /\ ~ac[a].seenPost /\ ~ac[a].started)
+DeadLeavesNothing == \A a \in Actors : ac[a].pc = "dead" => (~Registered(a) /\ ~InGroup(a))
 NoChildOfDead == \A a, c \in Actors : ac[c].par = a => ac[a].pc # "dead"
 =============================================================================
